@@ -66,6 +66,27 @@ def checkSer (tree : JVal) (text : Str) : M Unit := do
     if ser t != text then fail s!"ser: model prints {showStr (ser t)} observed {showStr text}"
   | _ => fail s!"SPEC C02: String() is not valid RFC 8259 JSON: {showStr text}"
 
+/-- observable trace check (replaced by `Anytype.Async.validTrace` of Model/Async once available):
+every i < n has exactly one start and one end, start before end, `r` exactly once and last,
+for the mutex variants the call intervals are disjoint -/
+def traceOk (isMap : Bool) (n : Nat) (ev : List String) : Bool :=
+  let idxOf (e : String) : Option Nat := (ev.findIdx? (· == e))
+  let cnt (e : String) : Nat := ev.count e
+  let perElem := (List.range n).all fun i =>
+    cnt s!"s{i}" == 1 && cnt s!"e{i}" == 1 &&
+    (match idxOf s!"s{i}", idxOf s!"e{i}" with | some a, some b => a < b | _, _ => false)
+  let retOk := cnt "r" == 1 && ev.getLast? == some "r"
+  let sizeOk := ev.length == 2 * n + 1
+  let disjoint := !isMap ||
+    -- under a mutex the trace alternates s i, e i
+    (let body := ev.dropLast
+     let rec alt : List String → Bool
+       | s :: e :: rest => s.startsWith "s" && e == "e" ++ (s.drop 1).toString && alt rest
+       | [] => true
+       | _ => false
+     alt body)
+  perElem && retOk && sizeOk && disjoint
+
 def execFn (name : String) (fields : List String) : M Unit := do
   match name, fields with
   -- ---------------- stdlib conformance
@@ -207,6 +228,10 @@ def execFn (name : String) (fields : List String) : M Unit := do
     if boolTok (specEq b a) != ba then fail s!"SPEC C07: b.Equals(a) = {ba}, typed structural equality says {specEq b a}"
     if boolTok (equalsJ a b) != ab then fail s!"equals: model {equalsJ a b} observed {ab}"
     if boolTok (equalsJ b a) != ba then fail s!"equals: model {equalsJ b a} observed {ba}"
+  | "asynctrace", [isMap, n, events] =>
+    match n.toNat? with
+    | some k => if traceOk (isMap == "t") k (splitTokens events) then pure () else fail s!"SPEC C15: observed event trace is not an execution of the goroutine model: {events}"
+    | none => fail "protocol"
   | "alarm", [prop, msg] => fail s!"SPEC {prop}: {msg}"
   | _, _ => fail s!"protocol: unknown fn {name} with {fields.length} fields"
 
